@@ -212,10 +212,22 @@ def _len(ex, args, kwargs, node):
         n = ex.st.fresh_const("len_opaque", L.Int)  # length of an unmodelled container
         ex.st.assume(n >= 0)
         return VInt(n)
+    if isinstance(a, VTuple):
+        return VInt(len(a.items))
     if isinstance(a, VFalseOr):
         ex.oblige("noraise.len_of_False", node, z3.Not(a.isfalse))
         return _len(ex, [a.val], kwargs, node)
     raise Unsupported(f"len of {a.ty}")
+
+
+@fn("builtins.int", tb="TB-py")
+def _int(ex, args, kwargs, node):
+    (a,) = args
+    if isinstance(a, VInt):
+        return a
+    if isinstance(a, VBool):
+        return VInt(z3.If(a.t, 1, 0))
+    raise Unsupported(f"int() of {a.ty}")
 
 
 @fn("builtins.bool", tb="TB-py")
